@@ -130,6 +130,8 @@ const E2_CASES: u64 = 3;
 const E2S_CASES: u64 = 2;
 /// cancellation family: 3 clocks, every subset dropped, x waiting thing {static, streaming, paused static, paused streaming, resume_at}
 const CANCEL_CASES: u64 = 5;
+/// a clock whose speed is linked to a modulator: the change of the modulator reaches the clock in the same internal buffer
+const MODSPEED_CASES: u64 = 3;
 const CANCEL_NAMES: [&str; 5] = ["static sound waiting to start", "streaming sound waiting to start", "static sound waiting to start, paused meanwhile", "streaming sound waiting to start, paused meanwhile", "paused static sound waiting to resume (resume_at)"];
 
 fn hist_depth(tier: Tier) -> usize {
@@ -144,7 +146,7 @@ impl Check for C05 {
 		Level::ModelChecking
 	}
 	fn num_cases(&self, _tier: Tier) -> u64 {
-		hist_cases() + GRID_CASES + E2_CASES + E2S_CASES + CANCEL_CASES
+		hist_cases() + GRID_CASES + E2_CASES + E2S_CASES + CANCEL_CASES + MODSPEED_CASES
 	}
 	fn max_workers(&self) -> usize {
 		16
@@ -166,6 +168,8 @@ impl Check for C05 {
 				"scheduling grid: {} scheduled on a clock at {} ticks/s, internal buffer {}: target ticks 0..=3 x fraction {{0,.25,.5}} x every composition of 12 frames into callbacks of {{1,2,3,5}} frames",
 				THINGS[thing], speed, ibs
 			)
+		} else if idx >= hist_cases() + GRID_CASES + E2_CASES + E2S_CASES + CANCEL_CASES {
+			format!("clock speed linked to a tweener modulator (mapping 0..1 -> 2..6 ticks/s), internal buffer {}: the tweener is set (instantly / over 1 s) at every callback position; the clock advances by the speed the modulator dictates in that very buffer", [1, 2, 4][(idx - hist_cases() - GRID_CASES - E2_CASES - E2S_CASES - CANCEL_CASES) as usize])
 		} else if idx >= hist_cases() + GRID_CASES + E2_CASES + E2S_CASES {
 			format!("cancellation: 3 clocks with a {} on each; every subset of the clock handles dropped in one interval (before / after everything was adopted): the things on dropped clocks become Stopped at the next callback, the others start when due", CANCEL_NAMES[(idx - hist_cases() - GRID_CASES - E2_CASES - E2S_CASES) as usize])
 		} else if idx >= hist_cases() + GRID_CASES + E2_CASES {
@@ -179,6 +183,8 @@ impl Check for C05 {
 			"clock history".into()
 		} else if idx < hist_cases() + GRID_CASES {
 			"scheduling grid".into()
+		} else if idx >= hist_cases() + GRID_CASES + E2_CASES + E2S_CASES + CANCEL_CASES {
+			"clock speed linked to a modulator".to_string()
 		} else if idx >= hist_cases() + GRID_CASES + E2_CASES + E2S_CASES {
 			format!("cancellation: {}", CANCEL_NAMES[(idx - hist_cases() - GRID_CASES - E2_CASES - E2S_CASES) as usize])
 		} else if idx >= hist_cases() + GRID_CASES + E2_CASES {
@@ -199,11 +205,11 @@ impl Check for C05 {
 	fn extra_evidence(&self, tier: Tier) -> Vec<(String, J)> {
 		vec![
 			("depth".into(), J::u(hist_depth(tier) as u64)),
-			("preemption_bound".into(), J::s(tier.pick("2", "unbounded"))),
+			("preemption_bound".into(), J::s(tier.pick("2", "unbounded (reader harnesses), 4 (harness with stop()), 3 (scheduled-sound harnesses)"))),
 		]
 	}
-	fn case_timeout_ms(&self, _tier: Tier) -> u64 {
-		600_000
+	fn case_timeout_ms(&self, tier: Tier) -> u64 {
+		tier.pick(600_000, 1_800_000)
 	}
 	fn run_case(&self, tier: Tier, idx: u64, ctx: &mut Ctx) {
 		if idx < hist_cases() {
@@ -216,6 +222,11 @@ impl Check for C05 {
 				pacer::set_mode(pacer::Mode::Pacer);
 			}
 			grid(tier, thing, speed, ibs, ctx);
+		} else if idx >= hist_cases() + GRID_CASES + E2_CASES + E2S_CASES + CANCEL_CASES {
+			let ibs = [1usize, 2, 4][(idx - hist_cases() - GRID_CASES - E2_CASES - E2S_CASES - CANCEL_CASES) as usize];
+			if let Err(p) = catch(|| modulated_speed(ibs, ctx)) {
+				ctx.fail(format!("panic: {} :: clock speed linked to a modulator", p), format!("internal buffer {}", ibs));
+			}
 		} else if idx >= hist_cases() + GRID_CASES + E2_CASES + E2S_CASES {
 			let w = idx - hist_cases() - GRID_CASES - E2_CASES - E2S_CASES;
 			if w == 1 || w == 3 {
@@ -308,13 +319,11 @@ fn run_hist(sr: u32, ibs: usize, letters: &[u8], ctx: &mut Ctx) {
 				clock.set_speed(ClockSpeed::TicksPerSecond(2.0), tw(0.0));
 				model.speed.set(ClockSpeed::TicksPerSecond(2.0), 0.0, Easing::Linear, SM::Imm);
 				alt.speed.set(ClockSpeed::TicksPerSecond(2.0), 0.0, Easing::Linear, SM::Imm);
-				own_time_tween_pending = None;
 			}
 			4 => {
 				clock.set_speed(ClockSpeed::TicksPerSecond(0.5), tw(1.0));
 				model.speed.set(ClockSpeed::TicksPerSecond(0.5), 1.0, Easing::Linear, SM::Imm);
 				alt.speed.set(ClockSpeed::TicksPerSecond(0.5), 1.0, Easing::Linear, SM::Imm);
-				own_time_tween_pending = None;
 			}
 			5 => {
 				let t = clock.time() + 1u64;
@@ -334,13 +343,11 @@ fn run_hist(sr: u32, ibs: usize, letters: &[u8], ctx: &mut Ctx) {
 				clock.set_speed(ClockSpeed::SecondsPerTick(0.25), tw(0.0));
 				model.speed.set(ClockSpeed::SecondsPerTick(0.25), 0.0, Easing::Linear, SM::Imm);
 				alt.speed.set(ClockSpeed::SecondsPerTick(0.25), 0.0, Easing::Linear, SM::Imm);
-				own_time_tween_pending = None;
 			}
 			7 => {
 				clock.set_speed(ClockSpeed::TicksPerMinute(60.0), tw(0.5));
 				model.speed.set(ClockSpeed::TicksPerMinute(60.0), 0.5, Easing::Linear, SM::Imm);
 				alt.speed.set(ClockSpeed::TicksPerMinute(60.0), 0.5, Easing::Linear, SM::Imm);
-				own_time_tween_pending = None;
 			}
 			8 => frames = 1,
 			9 => frames = 3,
@@ -379,6 +386,8 @@ fn run_hist(sr: u32, ibs: usize, letters: &[u8], ctx: &mut Ctx) {
 		// ---- observe through the handle
 		let t = clock.time();
 		if (t.ticks, t.fraction) != model.shown {
+			// (`alt` is the clock as it would run if own-time speed changes were never requested; it receives every later command
+			// too, so agreement with it still isolates the known root cause after further speed changes)
 			let own = own_time_tween_pending.is_some() && (t.ticks, t.fraction) == alt.shown;
 			ctx.fail(
 				if own {
@@ -749,8 +758,11 @@ fn e2(tier: Tier, which: u64, ctx: &mut Ctx) {
 			}
 		}
 	};
-	let bound = tier.pick(Some(2), None);
+	// thorough: unbounded for the two read-only harnesses; the harness with stop() (four more writes on the game side) is
+	// bounded at 4 preemptions
+	let bound = tier.pick(Some(2), if which == 2 { Some(4) } else { None });
 	let stats = sched::explore(bound, 2_000_000, &mut body, &mut judge);
+	sched::report(ctx, &stats);
 	// determinism: the first schedule once more
 	let (_r2, o2) = body(&[]);
 	if let Some(f) = &first {
@@ -888,6 +900,7 @@ fn e2_sched(tier: Tier, which: u64, ctx: &mut Ctx) {
 		}
 	};
 	let stats = sched::explore(tier.pick(Some(2), Some(3)), 3_000_000, &mut body, &mut judge);
+	sched::report(ctx, &stats);
 	if let Some(e) = stats.error {
 		ctx.fail(format!("MACHINERY: scheduler error: {}", e), "");
 	}
@@ -1045,4 +1058,75 @@ fn cancellation(which: u64, ctx: &mut Ctx) {
 		}
 	}
 	ctx.outcome(hash64(&("cancel", which)));
+}
+
+// ---------------------------------------------------------------------------------------------
+// a speed that follows a modulator: "a speed change takes effect when it is due" - the modulator is updated before the
+// clocks in every internal buffer, so the clock runs at the speed the modulator has in that buffer
+
+fn modulated_speed(ibs: usize, ctx: &mut Ctx) {
+	use kira::modulator::tweener::TweenerBuilder;
+	use kira::Mapping;
+	let sr = 4u32;
+	let dt = 1.0 / sr as f64;
+	for set_at in 0..6usize {
+		for dur in [0.0f64, 1.0] {
+			for frames in [ibs, ibs + 1, 2 * ibs] {
+				ctx.evals += 1;
+				ctx.traces += 1;
+				let desc = || format!("clock speed = mapping(tweener) with 0..1 -> 2..6 ticks/s, tweener 0 -> 1 over {} s set before callback {}, callbacks of {} frames, internal buffer {}, sample rate {}", dur, set_at, frames, ibs, sr);
+				let mut m = rig::manager(sr, ibs, rig::caps(2), MainTrackBuilder::new());
+				let mut tw_h = m.add_modulator(TweenerBuilder { initial_value: 0.0 }).expect("tweener");
+				let speed: Value<ClockSpeed> = Value::FromModulator {
+					id: tw_h.id(),
+					mapping: Mapping { input_range: (0.0, 1.0), output_range: (ClockSpeed::TicksPerSecond(2.0), ClockSpeed::TicksPerSecond(6.0)), easing: Easing::Linear },
+				};
+				let mut clock = m.add_clock(speed).expect("clock");
+				clock.start();
+				let mut buf = vec![0.0f32; 64];
+				// reference: tweener value per internal buffer, clock time accumulated with the speed of that buffer
+				let mut tv = ParamModel::new(0.0f64);
+				let (mut ticks, mut frac) = (0u64, 0.0f64);
+				let mut shown = (0u64, 0.0f64);
+				let mut bad = None;
+				for cb in 0..8usize {
+					if cb == set_at {
+						tw_h.set(1.0, Tween { start_time: StartTime::Immediate, duration: Duration::from_secs_f64(dur), easing: Easing::Linear });
+						tv.set(1.0, dur, Easing::Linear, SM::Imm);
+					}
+					let rep = rig::callback(&mut m, &mut buf, frames, 2);
+					ctx.transitions += 1;
+					if !rep.ok() {
+						bad = Some(format!("callback monitor {:?}", rep));
+						break;
+					}
+					// the handle shows the time as of the start of this callback
+					let t = clock.time();
+					if (t.ticks, t.fraction) != shown && (t.ticks as f64 + t.fraction - shown.0 as f64 - shown.1).abs() > 1e-9 {
+						bad = Some(format!("at the start of callback {} the clock shows ({}, {}), expected ({}, {})", cb, t.ticks, t.fraction, shown.0, shown.1));
+						break;
+					}
+					let mut left = frames;
+					while left > 0 {
+						let n = left.min(ibs);
+						left -= n;
+						tv.update(dt * n as f64, None);
+						let speed = 2.0 + 4.0 * tv.value;
+						frac += speed * dt * n as f64;
+						while frac >= 1.0 {
+							frac -= 1.0;
+							ticks += 1;
+						}
+					}
+					shown = (ticks, frac);
+				}
+				if let Some(b) = bad {
+					ctx.fail("a clock whose speed follows a modulator does not advance by the modulator's speed in the same buffer :: modulated speed", format!("{}; {}", desc(), b));
+				}
+				ctx.nontrivial_extra += 1;
+				ctx.state(hash64(&("modspeed", ibs, set_at, dur.to_bits(), frames)));
+			}
+		}
+	}
+	ctx.outcome(hash64(&("modspeed", ibs)));
 }
